@@ -243,6 +243,10 @@ func (f *Frame) nilCheck(p Ptr, kind, pos string) {
 func (f *Frame) unop(x *ssa.UnOp) {
 	switch x.Op {
 	case token.MUL: // load
+		if g, ok := x.X.(*ssa.Global); ok && g.Pkg != nil && g.Pkg.Pkg.Path() == "strconv" && (g.Name() == "ErrRange" || g.Name() == "ErrSyntax") {
+			f.vals[x] = S{f.s.errConst(g.Name()), x.Type()}
+			return
+		}
 		if g, ok := x.X.(*ssa.Global); ok {
 			if st, ok := g.Type().Underlying().(*types.Pointer).Elem().Underlying().(*types.Struct); ok && st.NumFields() == 0 {
 				// a stateless package-level value such as encoding/binary.BigEndian
